@@ -232,6 +232,42 @@ def composite_copy_checks(ctx):
                                           how, sname, n, " (after it was used)" if used_first else "", diff), {"kind": "composite-copy"})
 
 
+def compose_before_after_use(ctx):
+    """a composite must not depend on WHEN it was built: before or after its operand was used (and thereby streamlined).
+    (F-12d, fixed in /repo 93bbef3: MatchFirst/Or computed skipWhitespace differently in __init__ and in streamline())"""
+    import pyparsing as pp
+    strip = lambda bs: [x[:2] if x[0] == "ok" else x for x in bs]
+    extra = [("white-alt", lambda: pp.White(" ") | pp.Word("ab")), ("white-or", lambda: pp.White(" ") ^ pp.Word("ab")),
+             ("lineend-alt", lambda: pp.LineEnd() | pp.Word("ab")), ("nested-alt", lambda: (pp.White(" ") | pp.Literal("a")) | pp.Word("ab")),
+             ("notin-alt", lambda: pp.CharsNotIn(",") | pp.Literal("a")), ("seq-alt", lambda: (pp.Literal("a") + pp.Literal("b")) | pp.Literal("a"))]
+    shapes = [("m + 'x'", lambda m: m + pp.Literal("x")), ("Group(m) + 'b'", lambda m: pp.Group(m) + pp.Literal("b")), ("Opt(m) + 'x'", lambda m: pp.Opt(m) + pp.Literal("x")),
+              ("(m + 'x')[1, ...]", lambda m: (m + pp.Literal("x"))[1, ...]), ("m('k') + 'x'", lambda m: m("k") + pp.Literal("x")),
+              ("F <<= m; F + 'x'", lambda m: pp.Forward(m) + pp.Literal("x")), ("m | 'x'", lambda m: m | pp.Literal("x"))]
+    inputs_extra = [" x", " ab x", "a x", "\nx", " a b", "ab x", "  x"]
+    global INPUTS
+    saved = INPUTS
+    INPUTS = list(saved) + inputs_extra
+    try:
+        for n, mk in list(pool()) + extra:
+            for sname, shape in shapes:
+                try:
+                    m = mk()
+                    c1 = shape(m)
+                    behaviour(m)                  # parse_string streamlines m
+                    c2 = shape(m)
+                except Exception:
+                    continue
+                b1, b2 = strip(behaviour(c1)), strip(behaviour(c2))
+                ctx.case("compose-before-after:%s:%s" % (n, sname), True, True)
+                if b1 != b2:
+                    diff = [(s_, x, y) for s_, x, y in zip(INPUTS, b1, b2) if x != y][:2]
+                    ctx.violation("compose-before-after-use:%s:%s" % (n, sname),
+                                  "%s with m = %r: built before m was first used it parses differently from the same composite built afterwards: "
+                                  "(input, before, after) %r" % (sname, n, diff), {"kind": "compose-before-after"})
+    finally:
+        INPUTS = saved
+
+
 def sugar_table():
     import pyparsing as pp
     A = lambda: pp.Literal("a")
@@ -291,6 +327,7 @@ def correspond(ctx):
     rng = ctx.rng
     copy_checks(ctx)
     composite_copy_checks(ctx)
+    compose_before_after_use(ctx)
     sugar_checks(ctx)
     nprog = 40 if not ctx.thorough else 400
     for p in range(nprog):
@@ -331,6 +368,11 @@ def replay(ctx, obj):
     r = obj["replay"]
     c2 = vlib.Ctx(PROP, "quick", 0)
     c2.known = {}
+    if r.get("kind") == "compose-before-after":
+        compose_before_after_use(c2)
+        for v in c2.violations:
+            print(v["what"])
+        return not c2.violations
     if r.get("kind") == "composite-copy":
         composite_copy_checks(c2)
         for v in c2.violations:
